@@ -760,7 +760,33 @@ func classifyRace(rep string) (*Violation, string) {
 		}
 	}
 done:
+	// The innermost frame that is neither the Go runtime/standard library nor
+	// "the operating system" of the simulation (simnet/simio) decides: if it is
+	// simulator or harness code for every access, the report is our own bug.
 	var funcs []string
+	ownOnly := true
+	for _, st := range stacks {
+		decided := false
+		for _, f := range st {
+			switch {
+			case strings.HasPrefix(f, "verifsim/simnet.") || strings.HasPrefix(f, "verifsim/simio."):
+				continue
+			case strings.HasPrefix(f, "verifsim/"):
+				decided = true
+			case strings.HasPrefix(f, mod):
+				ownOnly = false
+				decided = true
+			default:
+				continue // runtime, standard library, third party
+			}
+			if decided {
+				break
+			}
+		}
+	}
+	if ownOnly {
+		return nil, "race report whose accesses are in simulator/harness code (simulator bug):\n" + rep
+	}
 	for _, st := range stacks {
 		for _, f := range st {
 			if strings.HasPrefix(f, mod) {
